@@ -572,7 +572,7 @@ def _oracle(case, res):
             break
     if not slot_ok:
         sig = dict(region, kind="slot", **cause)
-        if case["eval"] and "cause" not in sig:
+        if case["eval"]:
             ev = probe["eval"]
             got = None
             try:
